@@ -524,6 +524,8 @@ static void call_gstrf(int ilu)
     void *work = c->usework ? (void *)c->work : NULL; int_t lwork = c->usework ? (int_t)c->lwork : 0;
     c->info = -9999;
     memcpy(&g_opt0, &c->opt, sizeof g_opt0);
+    /* column order and tree are inputs of the factor routine (outputs of sp_preorder) */
+    uint64_t pc_in = fnv(c->perm_c, MAXN * sizeof(int)), et_in = fnv(c->etree, MAXN * sizeof(int));
     if (ilu) FN(gsitrf)(&c->opt, &AC, sp_ienv(2), sp_ienv(1), c->etree, work, lwork, c->perm_c, c->perm_r, &c->L, &c->U, &c->Glu, &c->stat, &c->info);
     else FN(gstrf)(&c->opt, &AC, sp_ienv(2), sp_ienv(1), c->etree, work, lwork, c->perm_c, c->perm_r, &c->L, &c->U, &c->Glu, &c->stat, &c->info);
     Destroy_CompCol_Permuted(&AC);
@@ -534,6 +536,7 @@ static void call_gstrf(int ilu)
     fprintf(OUT, ",\"info\":%lld", (long long)c->info);
     snap_json(c, &s);
     jints("perm_c", c->perm_c, c->n); jints("perm_r", c->perm_r, c->m); jints("etree", c->etree, c->n);
+    fprintf(OUT, ",\"order_in_same\":[%d,%d]", pc_in == fnv(c->perm_c, MAXN * sizeof(int)), et_in == fnv(c->etree, MAXN * sizeof(int)));
     LU_json(c);
     fprintf(OUT, ",\"expansions\":%d", c->stat.expansions);
     if (c->haveL) {
